@@ -30,11 +30,20 @@ CAT = {
     'G12': ([('a', 4, 1.0, 10.0, 130.0, 0.002)], False),
     'G13': ([('h', 6, 1.0, 1.0, 0.002, 0.3, 0.25)], False),
     'G14': ([('w', 4, (0.0, 0.1, 0.55), (2.0, 0.4, 0.6), 0.002)], True),
+    # slightly leaning grounded wires (6.4 degrees off vertical), grounded at end 1 / at end 2 with a top wire
+    'G15': ([('w', 4, (0.0, 0.0, 0.0), (0.2, 0.1, 2.0), 0.002)], True),
+    'G16': ([('w', 4, (0.2, 0.1, 2.0), (0.0, 0.0, 0.0), 0.002),
+             ('w', 2, (0.2, 0.1, 2.0), (1.1, 0.4, 2.1), 0.003)], True),
 }
 
 
-def spec(name, seed=0):
+def spec(name, seed=0, nmul=1, rmul=1):
     objs, gnd = CAT[name]
+    if rmul != 1:
+        ri = dict(w=4, a=5, h=4)
+        objs = [o[:ri[o[0]]] + (o[ri[o[0]]] * rmul,) + o[ri[o[0]] + 1:] for o in objs]
+    if nmul != 1:
+        objs = [o[:1] + (o[1] * nmul,) + o[2:] for o in objs]
     if not seed:
         return objs, gnd
     rnd = random.Random('%s-%d' % (name, seed))
@@ -47,9 +56,9 @@ def spec(name, seed=0):
     return out, gnd
 
 
-def build(mm, name, seed=0, f=F0, media='ideal', tags=None):
+def build(mm, name, seed=0, f=F0, media='ideal', tags=None, nmul=1, rmul=1):
     """Returns a Mininec model of catalogue member `name` built with module namespace mm."""
-    objs, gnd = spec(name, seed)
+    objs, gnd = spec(name, seed, nmul, rmul)
     geo = []
     for i, o in enumerate(objs):
         tag = None if tags is None else tags[i]
